@@ -146,6 +146,8 @@ pub struct Runner<B: NetworkBehaviour> {
     pub queue: ProbeQueue,
     pub mux_of_conn: HashMap<usize, Arc<Mutex<MuxState>>>,
     pub n_incoming: usize,
+    /// the ONE waker every poll of this Swarm is given (so a behaviour's stored waker is observable)
+    pub flag: Arc<Flag>,
 }
 
 impl<B: NetworkBehaviour> Runner<B>
@@ -176,7 +178,56 @@ where
         let listener = sim.swarm.listen_on("/ip4/10.9.9.9/tcp/9".parse().unwrap()).unwrap();
         sim.settle();
         sim.take_log();
-        Runner { sim, peers, listener, script: script.unwrap(), queue: queue.unwrap(), mux_of_conn: HashMap::new(), n_incoming: 0 }
+        let mut r = Runner {
+            sim,
+            peers,
+            listener,
+            script: script.unwrap(),
+            queue: queue.unwrap(),
+            mux_of_conn: HashMap::new(),
+            n_incoming: 0,
+            flag: Arc::new(Flag(std::sync::atomic::AtomicBool::new(false))),
+        };
+        // one more round with the persistent waker, so that every stored waker is `flag`
+        r.settle();
+        r
+    }
+
+    /// `sim::settle` with the persistent waker: poll until two consecutive idle `Pending`s
+    fn settle_flag(&mut self) {
+        use futures::StreamExt;
+        use std::sync::atomic::Ordering;
+        use std::task::{Context, Poll, Waker};
+        let waker = Waker::from(self.flag.clone());
+        let mut cx = Context::from_waker(&waker);
+        let mut idle = 0;
+        let mut guard = 0;
+        while idle < 2 {
+            guard += 1;
+            assert!(guard < 100_000, "swarm does not settle");
+            self.flag.0.store(false, Ordering::SeqCst);
+            match self.sim.swarm.poll_next_unpin(&mut cx) {
+                Poll::Ready(Some(ev)) => {
+                    let mut w = self.sim.world.lock().unwrap();
+                    let s = render_event(ev, &mut w);
+                    w.push(s);
+                    idle = 0;
+                }
+                Poll::Ready(None) => unreachable!(),
+                Poll::Pending => {
+                    if self.flag.0.load(Ordering::SeqCst) {
+                        idle = 0;
+                    } else {
+                        idle += 1;
+                    }
+                }
+            }
+        }
+    }
+
+    /// was the persistent waker woken since the last `settle`/`clear_woken`?
+    pub fn woken(&self) -> bool {
+        self.flag.0.load(std::sync::atomic::Ordering::SeqCst)
     }
 
     pub fn real_conn(&self, c: usize) -> Option<ConnectionId> {
@@ -204,7 +255,7 @@ where
 
     /// poll to quiescence, reset the probe's deny flags, return the raw ordered log
     pub fn settle(&mut self) -> Vec<String> {
-        self.sim.settle();
+        self.settle_flag();
         {
             let mut s = self.script.lock().unwrap();
             s.deny_pending_in = false;
